@@ -87,6 +87,8 @@ func ServiceFunction(g Generator, s *compile.ServiceSpec, f *compile.FunctionSpe
 		Namespace: NewNamespace(),
 		Name:      argsName,
 		Fields:    compile.FieldGroup(f.ArgsSpec),
+
+		IsEnveloped: true,
 		Doc: fmt.Sprintf(
 			"%v represents the arguments for the %v.%v function.\n\n"+
 				"The arguments for %v are sent and received over the wire as this struct.",
@@ -135,6 +137,7 @@ func ServiceFunction(g Generator, s *compile.ServiceSpec, f *compile.FunctionSpe
 		Fields:          resultFields,
 		IsUnion:         true,
 		AllowEmptyUnion: f.ResultSpec.ReturnType == nil,
+		IsEnveloped:     true,
 		Doc:             resultDoc,
 	}
 	if err := resultGen.Generate(g); err != nil {
